@@ -253,6 +253,57 @@ MUTATORS = {"append", "extend", "insert", "remove", "pop", "clear", "sort", "rev
 FRESH_CALLS = {"list", "set", "sorted", "tuple", "frozenset", "dict", "copy.copy", "copy.deepcopy"}
 
 
+def const_collection(A, func, node):
+    """resolve a Name / self.attr / Class.attr / literal to a list of constants (list, tuple,
+    set) or a {const: const} dict; None when it is not a literal collection"""
+    if isinstance(node, (ast.List, ast.Tuple, ast.Set)) and all(isinstance(e, ast.Constant) for e in node.elts):
+        return [e.value for e in node.elts]
+    if isinstance(node, ast.Dict) and node.keys and all(isinstance(k, ast.Constant) and isinstance(v, ast.Constant) for k, v in zip(node.keys, node.values)):
+        return {k.value: v.value for k, v in zip(node.keys, node.values)}
+    if isinstance(node, ast.Name):
+        f = func
+        while f is not None:
+            defs = [a.value for a in ast.walk(f.node) if isinstance(a, ast.Assign) and len(a.targets) == 1
+                    and isinstance(a.targets[0], ast.Name) and a.targets[0].id == node.id]
+            if len(defs) == 1:
+                return const_collection(A, f, defs[0])
+            f = f.parent
+        return None
+    if isinstance(node, ast.Attribute) and isinstance(node.value, ast.Name) and node.value.id in ("self", "cls", CLS):
+        v = A.p.class_attr_assigns(CLS).get(node.attr)
+        return const_collection(A, func, v) if v is not None else None
+    return None
+
+
+def find_translation_table(A):
+    """the DataONE -> hashlib name table used by _set_default_algorithms (local or class level)"""
+    sda = A.p.func(Q("_set_default_algorithms"))
+    cands = []
+    for f in [sda] + [g for g in A.p.funcs.values() if g.parent is sda]:
+        for n in ast.walk(f.node):
+            if isinstance(n, ast.Subscript):
+                t = const_collection(A, f, n.value)
+                if isinstance(t, dict):
+                    cands.append(t)
+            if isinstance(n, ast.Dict):
+                t = const_collection(A, f, n)
+                if isinstance(t, dict):
+                    cands.append(t)
+    cands = [t for t in cands if all(isinstance(v, str) for v in t.values())]
+    return (sda, cands[0]) if cands else (sda, None)
+
+
+def find_accepted_algorithms(A):
+    """the collection the store algorithm is tested against in _write_properties"""
+    wp = A.p.func(Q("_write_properties"))
+    for n in ast.walk(wp.node):
+        if isinstance(n, ast.Compare) and len(n.ops) == 1 and isinstance(n.ops[0], (ast.In, ast.NotIn)) and "algorithm" in norm(n.left):
+            t = const_collection(A, wp, n.comparators[0])
+            if isinstance(t, list):
+                return wp, t, n
+    return wp, None, None
+
+
 def check_C02(A: Analysis, tier):
     rules = []
     ra = Rule("C02", "C02.a", "no function mutates the instance/class algorithm tables or the required-key table, "
@@ -342,11 +393,7 @@ def check_C02(A: Analysis, tier):
 
     rc = Rule("C02", "C02.c", "the algorithm tables agree: yaml default list -> translation table -> hashlib names; the "
               "five documented defaults; other_algo_list within hashlib's guaranteed set; _clean_algorithm checks both tables", floor=4)
-    sda = A.p.func(Q("_set_default_algorithms"))
-    trans = None
-    for n in ast.walk(sda.node):
-        if isinstance(n, ast.Dict) and n.keys and all(isinstance(k, ast.Constant) for k in n.keys):
-            trans = {k.value: v.value for k, v in zip(n.keys, n.values) if isinstance(v, ast.Constant)}
+    sda, trans = find_translation_table(A)
     if not trans:
         raise AnalysisError("_set_default_algorithms: translation table not found")
     b = A.p.func(Q("_build_hashstore_yaml_string"))
@@ -646,13 +693,24 @@ def check_C13(A: Analysis, tier):
         for c in ast.walk(f.node):
             if isinstance(c, ast.Call) and isinstance(c.func, ast.Attribute) and isinstance(c.func.value, ast.Name) and c.func.value.id in ("self", CLS):
                 callers.setdefault(c.func.attr, []).append((f, c))
+    def only_from(fq, allowed, seen=()):
+        """every call chain into fq passes through a function of `allowed` (private helpers
+        in between are fine; a public method or an uncalled function is not)"""
+        if fq in allowed:
+            return True
+        name_ = fq.split(".")[-1]
+        if fq in seen or name_ in PUBLIC_API or not name_.startswith("_") or name_.startswith("__"):
+            return False
+        cs = callers.get(name_, [])
+        return bool(cs) and all(only_from(f.qual, allowed, seen + (fq,)) for f, _ in cs)
+
     for name, allowed in (("_mark_pid_refs_file_for_deletion", {Q("_untag_object")}),
                           ("_remove_pid_and_handle_cid_refs_deletion", {Q("_untag_object")}),
                           ("_untag_object", {Q("_store_hashstore_refs_files")})):
         for f, c in callers.get(name, []):
             rb.ob()
             rb.inst(f"{f.qual}:{c.lineno} calls {name}")
-            if f.qual not in allowed:
+            if not only_from(f.qual, allowed):
                 rb.fail(f, c, f"{name} swallows I/O errors by design and may only run inside the tagging roll-back, not from {f.qual}",
                         A.p.loc(f, c))
             if name == "_untag_object":
@@ -757,48 +815,53 @@ def check_C14(A: Analysis, tier):
     rules = []
     vp = A.p.func(Q("_verify_hashstore_properties"))
     req = [e.value for e in A.p.class_attr_assigns(CLS)["property_required_keys"].elts]
-    ra = Rule("C14", "C14.a", "every pinned key (all required keys but store_path) is compared with the stored value, "
-              "depth and width as integers, and a mismatch raises", floor=3)
-    loops = [l for l in func_nodes(vp, ast.For) if norm(l.iter).endswith("property_required_keys")]
-    ra.inst(f"_verify_hashstore_properties: loop over {norm(loops[0].iter) if loops else '?'}")
-    ra.ob(4)
-    if not loops:
-        ra.fail(vp, "for key in self.property_required_keys", "the stored configuration is no longer compared key by key", A.p.loc(vp, vp.node))
-    else:
-        lp = loops[0]
-        kv = lp.target.id
-        excl = set()
-        for n in ast.walk(lp):
-            if isinstance(n, ast.Compare) and isinstance(n.left, ast.Name) and n.left.id == kv and isinstance(n.ops[0], ast.NotEq) \
-                    and isinstance(n.comparators[0], ast.Constant):
-                for i in enclosing(n, ast.If):
-                    if i.test is n or any(n is x for x in ast.walk(i.test)):
-                        # an `if key != "x":` guarding the comparison excludes x
-                        if any(isinstance(r, ast.Raise) for r in ast.walk(i)):
-                            excl.add(n.comparators[0].value)
-                        break
-        ra.inst(f"excluded keys {sorted(excl)}")
-        if excl != {"store_path"}:
-            ra.fail(vp, lp, f"keys excluded from the comparison are {sorted(excl)}; only store_path may be", A.p.loc(vp, lp))
-        cmpn = [n for n in ast.walk(lp) if isinstance(n, ast.Compare) and any(norm(x).startswith("hashstore_yaml_dict[") for x in [n.left] + n.comparators)]
-        ok = False
-        for n in cmpn:
-            for i in enclosing(n, ast.If):
-                if any(n is x for x in ast.walk(i.test)) and isinstance(n.ops[0], ast.NotEq) and ends_in_raise(i.body):
-                    ok = True
-        ra.inst(f"comparison `{norm(cmpn[0]) if cmpn else '?'}`")
-        if not ok:
-            ra.fail(vp, cmpn[0] if cmpn else lp, "a mismatch between supplied and stored configuration does not raise", A.p.loc(vp, lp))
-        ints = [c for c in ast.walk(lp) if isinstance(c, ast.Call) and norm(c.func) == "int"]
-        intok = False
-        for c in ints:
-            for i in enclosing(c, ast.If):
-                t = norm(i.test)
-                if "store_depth" in t and "store_width" in t and in_body(c, i.body):
-                    intok = True
-        if not intok:
-            ra.fail(vp, "int(properties[key])", "depth and width are not compared as integers (an integer-like string would be refused or a "
-                    "mismatch missed)", A.p.loc(vp, lp))
+    ra = Rule("C14", "C14.a", "when hashstore.yaml exists, every normal return of _verify_hashstore_properties has compared, "
+              "for equality, each pinned key (all required keys but store_path) of the stored configuration with the "
+              "supplied value of the same key, depth and width as integers", floor=4)
+
+    def cfg_exists(atom):
+        if atom[0] == "probe" and atom[1] in ("isfile", "exists") and any(classify(t).cls == "CONFIG" for t in atom[2]):
+            return True
+        return None
+
+    it_a = A.run(Q("_verify_hashstore_properties"), "th", tagk="config-exists", assume=cfg_exists)
+
+    def keys_in(v):
+        out = set()
+        for t in v:
+            for x in subterms(t):
+                if tag(x) == "item" and tag(x[2]) == "const":
+                    out.add(x[2][1])
+        return out
+
+    def from_props(v):
+        return any(P("properties") in subterms(t) for t in v)
+
+    pinned = [k for k in req if k != "store_path"]
+    normals = [(st_) for k_, l_, st_, rv_ in it_a.exits if k_ == "return"]
+    ra.ob()
+    if not normals:
+        ra.fail(vp, "return", "with a configuration file present _verify_hashstore_properties never returns normally", A.p.loc(vp, vp.node))
+    if not any(l_ == "ValueError" for k_, l_, st_, rv_ in it_a.exits if k_ == "raise"):
+        ra.fail(vp, "raise ValueError", "a mismatch between supplied and stored configuration no longer raises ValueError", A.p.loc(vp, vp.node))
+    for st_ in normals:
+        for k in pinned:
+            ra.ob()
+            hit = None
+            for f, pol in st_.facts:
+                if f[0] == "cmp" and f[1] == "==" and pol is True:
+                    sides = (f[2], f[3])
+                    for i in (0, 1):
+                        if from_props(sides[i]) and not from_props(sides[1 - i]) and keys_in(sides[i]) == {k} and keys_in(sides[1 - i]) == {k}:
+                            hit = (sides[i], sides[1 - i])
+            ra.inst(f"pinned key {k}: " + (f"{showv(hit[1])[:40]} == {showv(hit[0])[:40]}" if hit else "no equality established"))
+            if hit is None:
+                ra.fail(vp, f"comparison of {k}", f"_verify_hashstore_properties can accept the supplied properties without having established that "
+                        f"`{k}` equals the value stored under the same key in hashstore.yaml: a store could be reopened with another {k}",
+                        A.p.loc(vp, vp.node))
+            elif k in ("store_depth", "store_width") and not all(tag(t) == "int" for t in hit[0]):
+                ra.fail(vp, f"int({k})", f"`{k}` is compared without integer coercion of the supplied value (an integer-like string would be refused)",
+                        A.p.loc(vp, vp.node))
     rules.append(ra)
 
     rb = Rule("C14", "C14.b", "in the constructor every file-system change is preceded on all paths by property "
@@ -814,7 +877,8 @@ def check_C14(A: Analysis, tier):
                     rb.fail(site_func(ev), site_text(ev), f"the constructor changes the file system before {need.split('.')[-1]} has accepted the "
                             "properties: a refused open would leave files/directories behind", site_loc(A, ev))
             if Q("_write_properties") in ev.ctx:
-                okalg = any(f[0] == "cmp" and f[1] == "in" and pol is True for f, pol in ev.facts)
+                okalg = any(f[0] == "cmp" and f[1] == "in" and pol is True for f, pol in ev.facts) or \
+                    any(a[0] == "cmp" and a[1] == "in" and F.implied(ev.facts, a) is True for f, pol in ev.facts for a in F.atoms_of(f))
                 if not okalg:
                     rb.fail(site_func(ev), site_text(ev), "the store root / configuration file is created before the store algorithm was "
                             "checked against the accepted list", site_loc(A, ev))
@@ -844,29 +908,43 @@ def check_C14(A: Analysis, tier):
         rc.fail(Q("_write_properties"), "open(hashstore.yaml, 'w')", "the configuration file is never written: a new store would not pin its configuration")
     rules.append(rc)
 
-    rd = Rule("C14", "C14.d", "without a configuration file the constructor refuses when any of the entity "
-              "directories it would create already exists", floor=2)
-    subs = None
-    for n in ast.walk(vp.node):
-        if isinstance(n, ast.List) and n.elts and all(isinstance(e, ast.Constant) and isinstance(e.value, str) for e in n.elts):
-            subs = [e.value for e in n.elts]
+    rd = Rule("C14", "C14.d", "without a configuration file, but with the store path present, the constructor probes every "
+              "entity directory it would later create and refuses (RuntimeError) when any exists", floor=2)
+
+    def no_cfg(atom):
+        if atom[0] == "probe" and atom[1] in ("isfile", "exists", "isdir"):
+            if any(classify(t).cls == "CONFIG" for t in atom[2]):
+                return False
+            if atom[1] == "exists" and all(tag(t) == "param" for t in atom[2]):
+                return True
+        return None
+
+    it_d = A.run(Q("_verify_hashstore_properties"), "th", tagk="no-config", assume=no_cfg)
+    probed = set()
+    for ev in it_d.events:
+        if ev.kind == "PROBE" and ev.prim.endswith(("isdir", "exists")):
+            for t in ev.paths[0]:
+                if tag(t) == "join" and len(t[1]) == 2 and tag(t[1][0]) in ("param", "root") and is_const_str(t[1][1]):
+                    probed.add(t[1][1][1])
     created = set()
     for ev in it_events(A.run(Q("__init__"), "th")):
         if ev.kind == "MKDIR":
             for c in ev.classes[0]:
-                if c.cls == "TMPDIR":
+                if c.cls in ("TMPDIR", "ENTITYDIR"):
                     created.add(c.key[1].split("/")[0])
-                if c.cls == "ENTITYDIR":
-                    created.add(c.key[1].split("/")[0])
-    rd.inst(f"probed without config: {subs}")
+    rd.inst(f"probed without config: {sorted(probed)}")
     rd.inst(f"created by the constructor: {sorted(created)}")
-    rd.ob(2)
-    if subs is None or set(subs) != created:
-        rd.fail(vp, "subfolders", f"directories probed for an existing store ({subs}) differ from those the constructor creates ({sorted(created)}): "
-                "a directory holding store data but no configuration could be re-initialised with other settings", A.p.loc(vp, vp.node))
-    nocfg = [i for i in func_nodes(vp, ast.If) if "isfile" in norm(i.test) and i.orelse]
-    if not nocfg or not any(isinstance(r, ast.Raise) for s in nocfg[0].orelse for r in ast.walk(s)):
-        rd.fail(vp, "else: ... raise", "existing store data without a configuration file is not refused", A.p.loc(vp, vp.node))
+    rd.ob(3)
+    if not created <= probed:
+        rd.fail(vp, "entity directories probed", f"directories probed for an existing store ({sorted(probed)}) do not cover those the constructor creates "
+                f"({sorted(created)}): a directory holding store data but no configuration could be re-initialised with other settings", A.p.loc(vp, vp.node))
+    labs = {l_ for k_, l_, st_, rv_ in it_d.exits if k_ == "raise"}
+    if "RuntimeError" not in labs:
+        rd.fail(vp, "raise RuntimeError", "existing store data without a configuration file is not refused", A.p.loc(vp, vp.node))
+    for k_, l_, st_, rv_ in it_d.exits:
+        if k_ == "return" and probed and not any(f[0] == "any" and pol is False for f, pol in st_.facts):
+            rd.fail(vp, "return", "without a configuration file the constructor can proceed on a path that did not establish that no entity directory exists",
+                    A.p.loc(vp, vp.node))
     rules.append(rd)
 
     rf = Rule("C14", "C14.f", "every open reads the configuration from hashstore.yaml on disk: _load_properties and "
@@ -884,16 +962,9 @@ def check_C14(A: Analysis, tier):
     rules.append(rf)
 
     re_ = Rule("C14", "C14.e", "accepted store algorithms = keys of the translation table = default list written to yaml", floor=3)
-    wp = A.p.func(Q("_write_properties"))
-    acc = None
-    for n in func_nodes(wp, ast.Assign):
-        if norm(n.targets[0]) == "accepted_store_algorithms" and isinstance(n.value, ast.List):
-            acc = [e.value for e in n.value.elts]
-    sda = A.p.func(Q("_set_default_algorithms"))
-    trans = None
-    for n in ast.walk(sda.node):
-        if isinstance(n, ast.Dict) and n.keys and all(isinstance(k, ast.Constant) for k in n.keys):
-            trans = [k.value for k in n.keys]
+    wp, acc, acc_test = find_accepted_algorithms(A)
+    sda, trans_d = find_translation_table(A)
+    trans = list(trans_d) if trans_d else None
     ylist = None
     for n in ast.walk(A.p.func(Q("_build_hashstore_yaml_string")).node):
         if isinstance(n, ast.Dict):
@@ -912,8 +983,7 @@ def check_C14(A: Analysis, tier):
     if set(acc) != set(ylist):
         re_.fail(wp, "accepted_store_algorithms", f"accepted store algorithms {acc} differ from the default list {ylist}", A.p.loc(wp, wp.node))
     # membership test guards the write
-    tests = [n for n in ast.walk(wp.node) if isinstance(n, ast.Compare) and isinstance(n.ops[0], (ast.In, ast.NotIn)) and norm(n.comparators[0]) == "accepted_store_algorithms"]
-    if not tests:
+    if acc_test is None:
         re_.fail(wp, "store_algorithm in accepted_store_algorithms", "the store algorithm is no longer checked against the accepted list", A.p.loc(wp, wp.node))
     rules.append(re_)
     return rules
@@ -921,6 +991,10 @@ def check_C14(A: Analysis, tier):
 
 def it_events(it):
     return it.events
+
+
+def is_const_str(t):
+    return tag(t) == "const" and isinstance(t[1], str)
 
 
 # =======================================================================================
